@@ -25,7 +25,10 @@ std::unique_ptr<ndsparse> splinetable<Alloc>::grideval(const DoubleContCont& coo
 	for (size_t i=0; i<size; i++)
 		if (coefficients[i] != 0)
 			nnz++;
-	std::unique_ptr<ndsparse> nd(new ndsparse(nnz, ndim));
+	//ndsparse refuses to allocate zero entries; a table whose coefficients are
+	//all zero evaluates to an empty (all-zero) result rather than an error
+	std::unique_ptr<ndsparse> nd(new ndsparse(std::max<size_t>(nnz,1), ndim));
+	nd->rows = nnz;
 	{
 		std::vector<unsigned int> indices(ndim);
 		for (size_t i=0; i<size; i++) {
